@@ -14,7 +14,7 @@ semantics implemented are the ones stated in DESIGN.md §3:
   Event   = an atomic flag (`set`, `is_set` are single steps).
   Process = `start` makes the target runnable, `join` waits for its return; arguments are shared
             (threads), which over-approximates fork for the recorders the harnesses use.
-  SoftFileLock = mutual exclusion per path (atomic exclusive create), released on exit.
+  SoftFileLock = an existence lock: held while the lock file exists (atomic exclusive create; unlink on release).
 
 Schedulers: seeded random (weighted: time-outs are rare unless asked for), replay of a recorded
 choice list, and bounded depth-first enumeration of all interleavings (stateless, by re-execution).
@@ -479,18 +479,23 @@ def get_start_method():
 
 
 class SoftFileLock:
+    """`filelock.SoftFileLock`: an *existence* lock.  It is held exactly while the lock file exists: acquiring is an atomic
+    exclusive create, releasing unlinks the file.  The simulation keeps the real file, so code that removes or creates the
+    lock file by path interferes with the lock exactly as it would with the real class."""
     _held = {}
 
     def __init__(self, path, timeout=-1, **kw):
         self.sim = _SIM
         self.path = path
         self.timeout = timeout
+        self.mine = False
 
     def __enter__(self):
+        import os
         me = self.sim.cur()
 
         def en():
-            if self.sim.locks.get(self.path) is None:
+            if not os.path.exists(self.path):
                 return [Action(me, "lock", short(self.path))]
             if self.timeout is not None and self.timeout >= 0:
                 return [Action(me, "lock-timeout", short(self.path), progress=False)]
@@ -499,12 +504,22 @@ class SoftFileLock:
         if a.kind == "lock-timeout":
             import filelock
             raise filelock.Timeout(self.path)
+        fd = os.open(self.path, os.O_WRONLY | os.O_CREAT | os.O_EXCL | os.O_TRUNC)
+        os.close(fd)
+        self.mine = True
         self.sim.locks[self.path] = me
         return self
 
     def __exit__(self, *exc):
+        import os
         me = self.sim.cur()
         self.sim.point(lambda: [Action(me, "unlock", short(self.path))])
+        if self.mine:
+            self.mine = False
+            try:
+                os.unlink(self.path)
+            except OSError:
+                pass
         if self.sim.locks.get(self.path) is me:
             self.sim.locks[self.path] = None
         return False
